@@ -44,20 +44,95 @@ fn native_sync(r: &Rollback) -> (u64, u64) {
     range
 }
 
-/// Bounded native enumeration (not a proof): every history of 1..=5 steps over {commit + sync,
-/// truncate(1) + sync, truncate(2) + sync, truncate(9) (refused)}, with a close-and-reopen (re-read
-/// of the segmented log with the live range the last sync published) after any subset of the steps,
-/// log length limit 3 (1364 histories x 32 reopen patterns, sampled to those that differ):
-///  * [C09] truncate(n) returns None and changes nothing when n exceeds the number of logged
-///    deltas; otherwise it returns exactly the composition of the n newest deltas (the oldest prior
-///    of each key wins) and the log shrinks by n;
-///  * [C09/C10] after every sync and after every reopen the log holds exactly the model's stack
-///    (never more than the limit after a sync), so rolling back k then m equals rolling back k + m,
-///    and no history makes the log unreadable.
+/// The log as the implementation keeps it, in the abstract: the running handle's stack of (record id,
+/// delta), the live range the segmented log tracks, and which record ids are physically in the
+/// segment file.  Two deliberate laxities of the crate are part of this model and are NOT judged:
+/// a sync publishes the live-range start from before its own pruning of the oldest delta (pinned by
+/// the crate's unit test in rollback/tests.rs), and pruning the oldest delta does not remove it from
+/// the segment file, so a reopen can see one pruned delta more than the running handle did.  What IS
+/// judged: truncate's result and refusal, that the stack always equals what the real log holds, that
+/// every published range re-opens, and that the log stays usable.
+#[cfg(test)]
+struct NativeLogModel {
+    mem: Vec<(u64, u8)>,
+    start: u64,
+    end: u64,
+    phys: BTreeMap<u64, u8>,
+    published: (u64, u64),
+    max_len: usize,
+}
+
+#[cfg(test)]
+impl NativeLogModel {
+    fn new(max_len: usize) -> Self {
+        NativeLogModel { mem: Vec::new(), start: 0, end: 0, phys: BTreeMap::new(), published: (0, 0), max_len }
+    }
+    fn commit_and_sync(&mut self, tag: u8) {
+        let id = self.end + 1;
+        self.phys.insert(id, tag);
+        if self.start == 0 { self.start = id; }
+        self.end = id;
+        self.mem.push((id, tag));
+        self.published = (self.start, self.end);
+        if self.mem.len() > self.max_len {
+            let (oldest, _) = self.mem.remove(0);
+            self.start = oldest + 1;
+        }
+    }
+    /// the tags of the n newest deltas, oldest first, or None when the request cannot be served
+    fn truncate_and_sync(&mut self, n: usize) -> Option<Vec<u8>> {
+        if n > self.mem.len() { return None; }
+        let popped: Vec<(u64, u8)> = self.mem.split_off(self.mem.len() - n);
+        let new_end = popped[0].0 - 1;
+        if new_end == 0 {
+            self.published = (0, 0);
+            self.start = 0;
+            self.end = 0;
+            self.phys.clear();
+        } else {
+            self.published = (std::cmp::min(self.start, new_end), new_end);
+            self.phys.retain(|id, _| *id <= new_end);
+            self.end = new_end;
+        }
+        Some(popped.iter().map(|(_, t)| *t).collect())
+    }
+    fn reopen(&mut self) {
+        let (s, e) = self.published;
+        self.phys.retain(|id, _| *id <= e);
+        self.mem = self.phys.iter().filter(|(id, _)| **id >= s && **id <= e && s != 0).map(|(id, t)| (*id, *t)).collect();
+        self.start = s;
+        self.end = e;
+    }
+    fn tags(&self) -> Vec<u8> { self.mem.iter().map(|(_, t)| *t).collect() }
+}
+
+#[cfg(test)]
+fn native_reopen(dir: &std::path::Path, dir_fd: &Arc<std::fs::File>, m: &NativeLogModel, max_len: u32, what: &str) -> Rollback {
+    let r = Rollback::read(max_len, dir.to_path_buf(), dir_fd.clone(), m.published.0, m.published.1)
+        .unwrap_or_else(|e| panic!("the rollback log cannot be re-read with the published live range {:?}: {} ({})", m.published, e, what));
+    assert!(r.shared.in_memory.lock().total_len() == m.mem.len(), "after reopen with live range {:?} the log holds {} deltas, the model {} ({})", m.published, r.shared.in_memory.lock().total_len(), m.mem.len(), what);
+    r
+}
+
+/// Bounded native enumeration (not a proof): (a) every history of 1..=5 steps over {commit + sync,
+/// truncate(1) + sync, truncate(2) + sync, truncate(9) (refused)}, five close-and-reopen patterns
+/// each; (b) 1..=7 commits (so that the log is pruned) followed by truncates of 1..=3 deltas in every
+/// composition until nothing is left, with a reopen after every step / only at the end / never; log
+/// length limit 3; deltas with overlapping keys.  Against the model above:
+///  * [C09] truncate(n) returns None and changes nothing (no pending truncation) when n exceeds the
+///    number of logged deltas; otherwise it returns exactly the composition of the n newest deltas
+///    (the oldest prior of each key wins) and the log shrinks by n;
+///  * [C09/C10] after every sync the real log holds the model's stack; re-reading the log with the
+///    live range the last sync published SUCCEEDS after every history (no sequence of commits and
+///    rollbacks makes the log unreadable) and yields the model's stack; a log that was rolled back
+///    completely accepts and re-reads further commits.
 #[cfg(test)]
 #[test]
 fn native_enum_rollback_log_histories() {
     const MAX_LEN: u32 = 3;
+    let check_len = |r: &Rollback, m: &NativeLogModel, what: &str| {
+        assert!(r.shared.in_memory.lock().total_len() == m.mem.len(), "the log holds {} deltas, the model {} ({})", r.shared.in_memory.lock().total_len(), m.mem.len(), what);
+    };
     let mut histories = 0u64;
     for len in 1..=5usize {
         let mut steps = vec![0u8; len];
@@ -66,28 +141,17 @@ fn native_enum_rollback_log_histories() {
                 let dir = tempfile::tempdir().unwrap();
                 let dir_fd = Arc::new(std::fs::File::open(dir.path()).unwrap());
                 let mut r = Rollback::read(MAX_LEN, dir.path().to_path_buf(), dir_fd.clone(), 0, 0).unwrap();
-                let mut model: Vec<u8> = Vec::new();
-                // what a re-read with the last published live range gives back.  The published start
-                // is the start from BEFORE this sync's pruning of the oldest delta (the crate's own
-                // unit test `rollback::tests` pins this: start 1 is published while pruning to 2),
-                // so a reopen sees the delta the last sync dropped from memory once more.
-                let mut reread: Vec<u8> = Vec::new();
+                let mut m = NativeLogModel::new(MAX_LEN as usize);
                 let mut next_tag = 1u8;
-                let mut range = (0u64, 0u64);
                 let what = format!("steps {:?} (0 = commit, 1 = truncate 1, 2 = truncate 2, 3 = truncate 9), reopen mask {:#b}", steps, reopen_mask);
                 for (i, st) in steps.iter().enumerate() {
                     match st {
                         0 => {
                             r.commit(native_delta(next_tag)).unwrap();
-                            model.push(next_tag);
+                            let range = native_sync(&r);
+                            m.commit_and_sync(next_tag);
+                            assert!(range == m.published, "published live range {:?}, the model's {:?} ({})", range, m.published, what);
                             next_tag += 1;
-                            range = native_sync(&r);
-                            reread = model.clone();
-                            if model.len() > MAX_LEN as usize {
-                                model.remove(0);
-                            }
-                            // (one delta is pruned per sync, so after a reopen the log stays one over the limit)
-                            assert!(model.len() <= MAX_LEN as usize + 1, "more than limit + 1 deltas kept after a sync ({})", what);
                         }
                         3 => {
                             let before = r.shared.in_memory.lock().total_len();
@@ -97,33 +161,31 @@ fn native_enum_rollback_log_histories() {
                         n => {
                             let n = *n as usize;
                             let got = r.truncate(n).unwrap();
-                            if n > model.len() {
-                                assert!(got.is_none(), "truncate({}) served with only {} deltas ({})", n, model.len(), what);
-                                assert!(r.shared.in_memory.lock().pending_truncate.is_none(), "a refused truncate left a pending truncation ({})", what);
-                            } else {
-                                let want = native_traceback(&model[model.len() - n..]);
-                                assert!(got.as_ref() == Some(&want), "truncate({}) returned a wrong traceback ({})", n, what);
-                                model.truncate(model.len() - n);
-                                range = native_sync(&r);
-                                reread = model.clone();
+                            match m.truncate_and_sync(n) {
+                                None => {
+                                    assert!(got.is_none(), "truncate({}) served with only {} deltas ({})", n, m.mem.len(), what);
+                                    assert!(r.shared.in_memory.lock().pending_truncate.is_none(), "a refused truncate left a pending truncation ({})", what);
+                                }
+                                Some(tags) => {
+                                    assert!(got.as_ref() == Some(&native_traceback(&tags)), "truncate({}) returned a wrong traceback ({})", n, what);
+                                    let range = native_sync(&r);
+                                    assert!(range == m.published, "published live range {:?}, the model's {:?} ({})", range, m.published, what);
+                                }
                             }
                         }
                     }
-                    assert!(r.shared.in_memory.lock().total_len() == model.len(), "the log holds {} deltas, the model {} after step {} ({})", r.shared.in_memory.lock().total_len(), model.len(), i, what);
+                    check_len(&r, &m, &format!("after step {}, {}", i, what));
                     if reopen_mask & (1 << i) != 0 {
                         drop(r);
-                        r = Rollback::read(MAX_LEN, dir.path().to_path_buf(), dir_fd.clone(), range.0, range.1)
-                            .unwrap_or_else(|e| panic!("the rollback log cannot be re-read with the published live range {:?}: {} ({})", range, e, what));
-                        model = reread.clone();
-                        assert!(model.len() <= MAX_LEN as usize + 2);
-                        assert!(r.shared.in_memory.lock().total_len() == model.len(), "after reopen with live range {:?} the log holds {} deltas, the model {} ({})", range, r.shared.in_memory.lock().total_len(), model.len(), what);
+                        m.reopen();
+                        r = native_reopen(dir.path(), &dir_fd, &m, MAX_LEN, &what);
                     }
                 }
                 // final: everything that is left rolls back to the composition of the model's stack
-                if !model.is_empty() {
-                    assert!(r.truncate(model.len() + 1).unwrap().is_none(), "more deltas than the model at the end ({})", what);
-                    let got = r.truncate(model.len()).unwrap();
-                    assert!(got == Some(native_traceback(&model)), "rolling back everything restores other values than the model ({})", what);
+                if !m.mem.is_empty() {
+                    assert!(r.truncate(m.mem.len() + 1).unwrap().is_none(), "more deltas than the model at the end ({})", what);
+                    let got = r.truncate(m.mem.len()).unwrap();
+                    assert!(got == Some(native_traceback(&m.tags())), "rolling back everything restores other values than the model ({})", what);
                 }
                 histories += 1;
             }
@@ -138,6 +200,64 @@ fn native_enum_rollback_log_histories() {
         }
     }
     assert!(histories >= 1364 * 5);
+
+    fn compositions(total: usize, acc: &mut Vec<usize>, out: &mut Vec<Vec<usize>>) {
+        if total == 0 { out.push(acc.clone()); return; }
+        for part in 1..=std::cmp::min(3, total) {
+            acc.push(part);
+            compositions(total - part, acc, out);
+            acc.pop();
+        }
+    }
+    let mut drained = 0u64;
+    for commits in 1..=7usize {
+        let mut comps = Vec::new();
+        compositions(std::cmp::min(commits, MAX_LEN as usize), &mut Vec::new(), &mut comps);
+        for comp in &comps {
+            for reopen_mode in 0..3u8 {
+                let dir = tempfile::tempdir().unwrap();
+                let dir_fd = Arc::new(std::fs::File::open(dir.path()).unwrap());
+                let mut r = Rollback::read(MAX_LEN, dir.path().to_path_buf(), dir_fd.clone(), 0, 0).unwrap();
+                let mut m = NativeLogModel::new(MAX_LEN as usize);
+                let what = format!("{} commits, then truncates {:?}, reopen mode {}", commits, comp, reopen_mode);
+                for tag in 1..=commits as u8 {
+                    r.commit(native_delta(tag)).unwrap();
+                    native_sync(&r);
+                    m.commit_and_sync(tag);
+                }
+                for n in comp {
+                    let got = r.truncate(*n).unwrap();
+                    let tags = m.truncate_and_sync(*n).unwrap();
+                    assert!(got == Some(native_traceback(&tags)), "truncate({}) returned a wrong traceback ({})", n, what);
+                    let range = native_sync(&r);
+                    assert!(range == m.published, "published live range {:?}, the model's {:?} ({})", range, m.published, what);
+                    check_len(&r, &m, &what);
+                    if reopen_mode == 1 {
+                        drop(r);
+                        m.reopen();
+                        r = native_reopen(dir.path(), &dir_fd, &m, MAX_LEN, &what);
+                    }
+                }
+                if reopen_mode == 2 {
+                    drop(r);
+                    m.reopen();
+                    r = native_reopen(dir.path(), &dir_fd, &m, MAX_LEN, &what);
+                }
+                // the log is usable again: a further commit is logged and re-read
+                r.commit(native_delta(99)).unwrap();
+                native_sync(&r);
+                m.commit_and_sync(99);
+                check_len(&r, &m, &what);
+                drop(r);
+                m.reopen();
+                let r2 = native_reopen(dir.path(), &dir_fd, &m, MAX_LEN, &format!("{}, after a further commit", what));
+                let top = r2.truncate(1).unwrap();
+                assert!(top == Some(native_traceback(&[99])), "the newest delta after a reopen is not the last commit's ({})", what);
+                drained += 1;
+            }
+        }
+    }
+    assert!(drained >= 60);
 }
 
 #[cfg(test)]
